@@ -39,32 +39,34 @@ type frag struct {
 }
 
 var frags = map[string]frag{
-	"field":   {src: "Ffield int", dst: "Ffield int", scalars: []string{"Ffield:int"}},
-	"cast":    {src: "Fcast int", dst: "Fcast int64", scalars: []string{"Fcast:int64"}},
-	"str":     {src: "Fstr EW", dst: "Fstr string", scalars: []string{"Fstr:string"}},
-	"getter":  {src: "GtBack int", dst: "Fgetter int", methods: "func (s *%T) Fgetter() int { vrt.Call(\"Fgetter\"); return s.GtBack + 5000 }\n", scalars: []string{"Fgetter:int"}},
-	"arg":     {dst: "Farg int", notes: []string{":map $2 Farg"}, scalars: []string{"Farg:int"}},
-	"argnest": {src: "Fan EN", dst: "Fan EN", notes: []string{":map $2 Fan.X"}, scalars: []string{"Fan.X:int", "Fan.Y:string"}},
-	"lit":     {dst: "Flit int", notes: []string{":literal Flit 42"}, scalars: []string{"Flit:int"}},
-	"convV":   {src: "FconvV int", dst: "FconvV int", notes: []string{":conv CvV FconvV"}, scalars: []string{"FconvV:int"}},
-	"convP":   {src: "FconvP int", dst: "FconvP int", notes: []string{":conv CvP FconvP"}, scalars: []string{"FconvP:int"}},
-	"convE":   {src: "FconvE int", dst: "FconvE int", notes: []string{":conv CvE FconvE"}, scalars: []string{"FconvE:int"}},
-	"mapE":    {src: "GeBack int", dst: "FmapE int", methods: "func (s *%T) GetE() (int, error) {\n\tif vrt.Call(\"GetE\") {\n\t\treturn 0, vrt.Err(\"GetE\")\n\t}\n\treturn s.GeBack + 4000, nil\n}\n", notes: []string{":map GetE() FmapE"}, scalars: []string{"FmapE:int"}},
-	"slcopy":  {src: "Fslcopy []int", dst: "Fslcopy []int"},
-	"slloop":  {src: "Fslloop []EW", dst: "Fslloop []EW"},
-	"slcast":  {src: "Fslcast []int", dst: "Fslcast []int64"},
-	"sltags":  {src: "Fsltags ETags", dst: "Fsltags ETags"},
-	"slget":   {src: "GslBack []int", dst: "Fslget []int", methods: "func (s *%T) Fslget() []int { return s.GslBack }\n"},
-	"slptr":   {src: "Fslptr []*int", dst: "Fslptr []*int"},
+	"field":    {src: "Ffield int", dst: "Ffield int", scalars: []string{"Ffield:int"}},
+	"cast":     {src: "Fcast int", dst: "Fcast int64", scalars: []string{"Fcast:int64"}},
+	"str":      {src: "Fstr EW", dst: "Fstr string", scalars: []string{"Fstr:string"}},
+	"getter":   {src: "GtBack int", dst: "Fgetter int", methods: "func (s *%T) Fgetter() int { vrt.Call(\"Fgetter\"); return s.GtBack + 5000 }\n", scalars: []string{"Fgetter:int"}},
+	"arg":      {dst: "Farg int", notes: []string{":map $2 Farg"}, scalars: []string{"Farg:int"}},
+	"argnest":  {src: "Fan EN", dst: "Fan EN", notes: []string{":map $2 Fan.X"}, scalars: []string{"Fan.X:int", "Fan.Y:string"}},
+	"lit":      {dst: "Flit int", notes: []string{":literal Flit 42"}, scalars: []string{"Flit:int"}},
+	"convV":    {src: "FconvV int", dst: "FconvV int", notes: []string{":conv CvV FconvV"}, scalars: []string{"FconvV:int"}},
+	"convP":    {src: "FconvP int", dst: "FconvP int", notes: []string{":conv CvP FconvP"}, scalars: []string{"FconvP:int"}},
+	"convE":    {src: "FconvE int", dst: "FconvE int", notes: []string{":conv CvE FconvE"}, scalars: []string{"FconvE:int"}},
+	"mapE":     {src: "GeBack int", dst: "FmapE int", methods: "func (s *%T) GetE() (int, error) {\n\tif vrt.Call(\"GetE\") {\n\t\treturn 0, vrt.Err(\"GetE\")\n\t}\n\treturn s.GeBack + 4000, nil\n}\n", notes: []string{":map GetE() FmapE"}, scalars: []string{"FmapE:int"}},
+	"slcopy":   {src: "Fslcopy []int", dst: "Fslcopy []int"},
+	"slloop":   {src: "Fslloop []EW", dst: "Fslloop []EW"},
+	"slcast":   {src: "Fslcast []int", dst: "Fslcast []int64"},
+	"sltags":   {src: "Fsltags ETags", dst: "Fsltags ETags"},
+	"slget":    {src: "GslBack []int", dst: "Fslget []int", methods: "func (s *%T) Fslget() []int { return s.GslBack }\n"},
+	"slptr":    {src: "Fslptr []*int", dst: "Fslptr []*int"},
 	"slstruct": {src: "Fslstruct []EN", dst: "Fslstruct []EN"},
-	"slnest":  {src: "Fsn EN5", dst: "Fsn EN6", scalars: []string{"Fsn.K:int"}},
-	"nest":    {src: "Fnest EN", dst: "Fnest EN2", scalars: []string{"Fnest.X:int", "Fnest.Y:string"}},
-	"nestE":   {src: "FnestE EN", dst: "FnestE EN2", notes: []string{":conv CvE2 FnestE.X FnestE.X"}, scalars: []string{"FnestE.X:int", "FnestE.Y:string"}},
-	"nestE2":  {src: "FnestD EN3", dst: "FnestD EN4", notes: []string{":conv CvE3 FnestD.In.X FnestD.In.X"}, scalars: []string{"FnestD.In.X:int", "FnestD.In.Y:string", "FnestD.K:int"}},
-	"ptr":     {src: "Fptr *int", dst: "Fptr *int"},
-	"npath":   {src: "Pn *EN", dst: "Fnp int", notes: []string{":map Pn.X Fnp"}, scalars: []string{"Fnp:int"}},
-	"skip":    {src: "Fskip int", dst: "Fskip int", notes: []string{":skip Fskip"}, scalars: []string{"Fskip:int"}},
-	"nomatch": {dst: "Fnomatch int", scalars: []string{"Fnomatch:int"}},
+	"slext":    {src: "Fslext []vrt.VInt", dst: "Fslext []vrt.VInt"},
+	"slextp":   {src: "Fslextp []*vrt.VS", dst: "Fslextp []*vrt.VS"},
+	"slnest":   {src: "Fsn EN5", dst: "Fsn EN6", scalars: []string{"Fsn.K:int"}},
+	"nest":     {src: "Fnest EN", dst: "Fnest EN2", scalars: []string{"Fnest.X:int", "Fnest.Y:string"}},
+	"nestE":    {src: "FnestE EN", dst: "FnestE EN2", notes: []string{":conv CvE2 FnestE.X FnestE.X"}, scalars: []string{"FnestE.X:int", "FnestE.Y:string"}},
+	"nestE2":   {src: "FnestD EN3", dst: "FnestD EN4", notes: []string{":conv CvE3 FnestD.In.X FnestD.In.X"}, scalars: []string{"FnestD.In.X:int", "FnestD.In.Y:string", "FnestD.K:int"}},
+	"ptr":      {src: "Fptr *int", dst: "Fptr *int"},
+	"npath":    {src: "Pn *EN", dst: "Fnp int", notes: []string{":map Pn.X Fnp"}, scalars: []string{"Fnp:int"}},
+	"skip":     {src: "Fskip int", dst: "Fskip int", notes: []string{":skip Fskip"}, scalars: []string{"Fskip:int"}},
+	"nomatch":  {dst: "Fnomatch int", scalars: []string{"Fnomatch:int"}},
 }
 
 // Kinds lists the kinds known to the harness (must equal DOMAIN Frag).
@@ -151,6 +153,14 @@ func CvE3(i int) (int, error) {
 // VrtSrc is the import-free recorder linked into the generated programs.
 const VrtSrc = `// Package vrt records calls made by generated functions into user code.
 package vrt
+
+// VInt and VS are element types of an imported package.
+type VInt int
+
+type VS struct {
+	X int
+	Y string
+}
 
 type Event struct {
 	Site  string
